@@ -36,6 +36,10 @@ impl Aes128Key {
     pub fn verif_state(&self) -> (u64, usize) {
         (self.salt_value, self.buf.len())
     }
+    /// Position the salt counter (to reach the wrap-around within a test)
+    pub fn verif_set_salt(&mut self, v: u64) {
+        self.salt_value = v;
+    }
 }
 
 impl SnmpPriv for Aes128Key {
